@@ -21,6 +21,7 @@ const (
 	HzKeywordArg         = "keyword-arg"          // argument/field names that are target keywords or generated identifiers
 	HzContainerKey       = "container-key"        // binary / container / struct typed set elements and map keys
 	HzInclTypedefChain   = "included-typedef-chain"
+	HzScopeNewPair       = "scope-new-pair" // scopes X and NewX in one file (Go: NewXPublisher declared twice)
 	HzTypedefStruct      = "typedef-struct" // a typedef of a struct/union/exception used as a type (Go output does not compile)
 )
 
@@ -761,6 +762,22 @@ func (b *builder) genDecls() {
 	if c.Scopes {
 		for i, n := 0, b.count("nscope", 2); i < n; i++ {
 			d := &Decl{Kind: "scope", Name: c.genName(t, b.names, "scope", typeStyles), Doc: b.doc("scope"), Ann: b.ann("scope")}
+			// scopes X and NewX in one file: NewXPublisher is both the constructor of X's publisher
+			// and the publisher interface of NewX in the Go output (known finding, excluded)
+			clash := false
+			for _, od := range b.f.Decls {
+				if od.Kind != "scope" {
+					continue
+				}
+				a, bn := normName(od.Name), normName(d.Name)
+				if a == "new"+bn || bn == "new"+a {
+					clash = true
+				}
+			}
+			if clash && !c.Hazards[HzScopeNewPair] {
+				c.Excluded[HzScopeNewPair]++
+				continue
+			}
 			d.Prefix = c.GenPrefix(t)
 			on := newNamer()
 			no := rapid.IntRange(1, 3).Draw(t, "nops")
